@@ -341,9 +341,9 @@ class Stream:
     inp: Bytes (everything the peer will ever send); pos: z3 BV64 cursor;
     out: Bytes written so far; flushed: z3 BV64 = number of out bytes flushed;
     closed: python bool (shutdown called)"""
-    __slots__ = ('name', 'inp', 'pos', 'out', 'flushed', 'closed', 'buffered')
+    __slots__ = ('name', 'inp', 'pos', 'out', 'flushed', 'closed', 'buffered', 'ahead')
 
-    def __init__(self, name, inp, pos=None, out=None, flushed=None, closed=False, buffered=True):
+    def __init__(self, name, inp, pos=None, out=None, flushed=None, closed=False, buffered=True, ahead=None):
         self.name = name
         self.inp = inp
         self.pos = pos if pos is not None else BV(0, 64)
@@ -351,10 +351,15 @@ class Stream:
         self.flushed = flushed if flushed is not None else BV(0, 64)
         self.closed = closed
         self.buffered = buffered
+        # BufReader read-ahead: number of input bytes already pulled off the socket into the reader's buffer but not yet
+        # consumed (None = not observed yet: chosen, arbitrarily, the first time buffer()/into_inner() looks at it)
+        self.ahead = ahead
 
     def replace(self, **kw):
         d = dict(name=self.name, inp=self.inp, pos=self.pos, out=self.out, flushed=self.flushed,
-                 closed=self.closed, buffered=self.buffered)
+                 closed=self.closed, buffered=self.buffered, ahead=self.ahead)
+        if 'pos' in kw and 'ahead' not in kw:
+            d['ahead'] = None      # any read may refill the buffer
         d.update(kw)
         return Stream(**d)
 
